@@ -1732,11 +1732,18 @@ where
                             packet.topic_name(),
                             found_ta
                         );
-                        packet = packet.remove_topic_add_topic_alias(found_ta);
+                        // The rewritten packet must still respect the peer's maximum packet size
+                        let rewritten = packet.clone().remove_topic_add_topic_alias(found_ta);
+                        if rewritten.size() <= self.maximum_packet_size_send as usize {
+                            packet = rewritten;
+                        }
                     } else {
                         let lru_ta = topic_alias_send.get_lru_alias();
-                        topic_alias_send.insert_or_update(packet.topic_name(), lru_ta);
-                        packet = packet.add_topic_alias(lru_ta);
+                        let rewritten = packet.clone().add_topic_alias(lru_ta);
+                        if rewritten.size() <= self.maximum_packet_size_send as usize {
+                            topic_alias_send.insert_or_update(packet.topic_name(), lru_ta);
+                            packet = rewritten;
+                        }
                     }
                 }
             } else if self.auto_replace_topic_alias_send {
@@ -1747,7 +1754,10 @@ where
                             packet.topic_name(),
                             found_ta
                         );
-                        packet = packet.remove_topic_add_topic_alias(found_ta);
+                        let rewritten = packet.clone().remove_topic_add_topic_alias(found_ta);
+                        if rewritten.size() <= self.maximum_packet_size_send as usize {
+                            packet = rewritten;
+                        }
                     }
                 }
             }
